@@ -480,7 +480,7 @@ def check (d : Desc) (n : Net) : List Finding :=
   let fabrics := [reqF, rspF] ++ (if d.netType == .nw then [wideF] else [])
   let frame := fabrics.flatMap fun f => frameFindings n f ++ injectFindings n f
   let g := gridOf n
-  let frame := frame ++ hdrFindings "xy" d n
+  let frame := frame ++ hdrFindings "xy" d n ++ routerSwitchFindings "xy" n
   let rdup := if (g.routers.map (·.1)).Nodup then [] else [fnd "xy-coordinate-shared" "routers" "two routers share a coordinate"]
   let edup := if (g.eps.map (·.1)).Nodup then [] else [fnd "xy-coordinate-shared" "endpoints" "two endpoints share an identity"]
   -- lock-step on every flow: emitted walk = ideal walk
